@@ -319,6 +319,7 @@ def run(ctx):
         "non-trivial = >= 3 nodes; distinct by content"
     )
     ctx.budget_s = ctx.budget(900, 110)
+    _hist.fixed_histories(ctx, out, judge, _hist.STALE_HANDLE_HISTORIES)
     n = 4 if ctx.thorough else 3
     run_corpus(ctx, out)
     _hist.exhaustive_single_ops(ctx, out, judge, max_nodes=n, alphabet=[0, 1], ops_of=lambda impl, ti: _hist.all_single_ops(impl, ti, labels=[0, 1]),
